@@ -50,6 +50,7 @@ class St:
 
 class C18(System):
     nontrivial_per_config = False
+    merge_across_configs = True   # a config only selects the initial wiring; canon() is the complete connection state
 
     def __init__(self, name, unit_names, n_streams, cap, depth_q, depth_t, snapshots=False, wirings=None, pipes=True, construct=False,
                  state_cap=2_500_000, tcap_q=None, tcap_t=None):
